@@ -229,10 +229,9 @@ FitNum(k, v, st, where) ==
          ELSE IF cc.ok /\ where \in {"arg", "ret"} THEN R(NumV(cc.v, FALSE), st)
          ELSE R(NilV, Out(st))
   ELSE IF v.n.k = k THEN R(v, st)
-  ELSE IF st.mode = "strict" THEN R(NilV, Fail(st, "type"))   \* a non-constant value of another type: rejected
-  ELSE IF where \in {"arg", "ret"} \/ st.mode = "relaxed"
-       THEN LET cc == Conv(v.n, k) IN IF cc.ok THEN R(NumV(cc.v, FALSE), st) ELSE R(NilV, Out(st))
-       ELSE R(NilV, Out(st))
+  ELSE IF where = "var" THEN R(NilV, Out(st))                 \* declaration / element store of another kind: the reference is silent
+  ELSE IF st.mode = "strict" THEN R(NilV, Fail(st, "type"))   \* a non-constant argument / result of another type: rejected
+  ELSE LET cc == Conv(v.n, k) IN IF cc.ok THEN R(NumV(cc.v, FALSE), st) ELSE R(NilV, Out(st))
 Fit(ty, v, st, where) ==
   IF ty.ty = "num" THEN (IF v.t = "num" THEN FitNum(ty.k, v, st, where) ELSE R(NilV, Out(st)))
   ELSE IF (ty.ty = "str" /\ v.t = "str") \/ (ty.ty = "bool" /\ v.t = "bool") \/ (ty.ty = "slice" /\ v.t = "slice")
